@@ -74,7 +74,10 @@ fn(B + "_handle_dbapi_exception", cls="ConnH", props=["C27"], types=T, callees=C
    ghost_after={"del self._is_disconnect": ["self._g_was_disc = True"]},
    loop_modifies={0: ["any.is_disconnect", "any.invalidate_pool_on_disconnect", "any.chained_exception"]},
    # quick tier: no handle_error listeners installed (dialect._has_events false); thorough tier: all paths
-   variants=[dict(name="no-listeners", requires=["not self.dialect._has_events"]), dict(name="all", tier="thorough")],
+   variants=[dict(name="no-listeners", requires=["not self.dialect._has_events"]), dict(name="all", tier="thorough", requires=[
+       # with listeners that may re-classify the error the Connection is assumed not to be closed at entry: on a closed
+       # Connection a listener setting is_disconnect would trip the `assert dbapi_conn_wrapper is not None` of the clean-up
+       "not (" + NOCONN + " and not self.__can_reconnect)"])],
    # NoReturn
    ensures=["False"],
    may_raise={"BaseException": "True"},
